@@ -12,6 +12,7 @@
     matcher is what the caller receives. *)
 From ClapModel Require Import Base.Bytes Base.Machine Base.Utf8 Lex.OsStrExtModel.
 From ClapModel Require Import Parse.Cmd Parse.Build Parse.Valid Parse.Matcher Parse.Errors Parse.Validator.
+From ClapModel Require Value.ValueBase Value.IntFactory Value.BoolParse Value.PossibleValues.
 From Coq Require Import ZArith.
 From RecordUpdate Require Import RecordSet.
 Import RecordSetNotations.
@@ -119,6 +120,24 @@ Definition parse_i64 (s : bytes) : option Z :=
                      if in_i64 v then Some v else None
          end
   end.
+(** the value parsers C04 models in depth (Value/*.v): only acceptance / the error kind is read here *)
+Definition ek_of (k : ClapModel.Value.ValueBase.err_kind) : ekind :=
+  match k with
+  | ClapModel.Value.ValueBase.InvalidUtf8 => EInvalidUtf8
+  | ClapModel.Value.ValueBase.ValueValidation => EValueValidation
+  | ClapModel.Value.ValueBase.InvalidValue => EInvalidValue
+  end.
+Definition vres_kind {A} (r : ClapModel.Value.ValueBase.vresult A) : option ekind :=
+  match r with ClapModel.Value.ValueBase.VOk _ => None | ClapModel.Value.ValueBase.VErr k => Some (ek_of k) end.
+(** the harness builds clap with the cargo feature `unicode` ([eq_ignore_case] = [unicase::eq]) *)
+Definition clap_unicode : bool := true.
+(** [value_parser!(T)]: [RangedU64ValueParser] for u64, [RangedI64ValueParser] for the other widths
+    (= the regenerated factory table, [TypedView.ity_pkind_factory]) *)
+Definition ity_pkind (t : ClapModel.Value.ValueBase.ity) : ClapModel.Value.ValueBase.pkind :=
+  match t with
+  | ClapModel.Value.ValueBase.U64 => ClapModel.Value.ValueBase.PU64
+  | _ => ClapModel.Value.ValueBase.PI64
+  end.
 Definition vp_parse (v : vparser) (s : bytes) : option ekind :=    (* None = accepted *)
   match v with
   | VPString => if utf8_valid s then None else Some EInvalidUtf8
@@ -132,6 +151,14 @@ Definition vp_parse (v : vparser) (s : bytes) : option ekind :=    (* None = acc
                    else match parse_i64 s with
                         | Some z => if ((lo <=? z) && (z <=? hi))%Z then None else Some EValueValidation
                         | None => Some EValueValidation end
+  | VPBoolish => vres_kind (ClapModel.Value.BoolParse.boolish_parse s)
+  | VPFalsey => vres_kind (ClapModel.Value.BoolParse.falsey_parse s)
+  | VPNonEmpty => vres_kind (ClapModel.Value.BoolParse.nonempty_parse s)
+  | VPPossible ic pvs =>
+      vres_kind (ClapModel.Value.PossibleValues.possible_parse clap_unicode ic (map fst pvs) s)
+  | VPRanged t lo hi =>
+      vres_kind (ClapModel.Value.IntFactory.ranged_parse (ity_pkind t)
+                   (ClapModel.Value.ValueBase.Included lo, ClapModel.Value.ValueBase.Included hi) t s)
   end.
 
 Section WithCmd.
